@@ -189,11 +189,25 @@ package openapiv3
 //@   ensures delete: httpMethod == "delete" ==> pathItem.Delete == operation && pathItem.Get == old(pathItem.Get) && pathItem.Post == old(pathItem.Post) && pathItem.Put == old(pathItem.Put) && pathItem.Patch == old(pathItem.Patch)
 //@   ensures patch: httpMethod == "patch" ==> pathItem.Patch == operation && pathItem.Get == old(pathItem.Get) && pathItem.Post == old(pathItem.Post) && pathItem.Put == old(pathItem.Put) && pathItem.Delete == old(pathItem.Delete)
 
-// both renderings are made from the same document: JSON is the YAML rendering converted
+// both renderings are made from the same document: the YAML bytes are the marshalled document, and the JSON
+// bytes are the marshalling of what decoding exactly those YAML bytes gave
 //@ func (g *Generator) Render() (r []byte, err error)
 //@   requires g != nil
-//@   let y = result0(yaml.Marshal(g.doc))
-//@   let yerr = result1(yaml.Marshal(g.doc))
-//@   ensures yaml: g.format != FormatJSON ==> r == y && err == yerr
-//@   ensures json: g.format == FormatJSON && yerr == nil && result1(k8syaml.YAMLToJSON(y)) == nil ==> r == result0(k8syaml.YAMLToJSON(y)) && err == nil
-//@   ensures json_error: g.format == FormatJSON && (yerr != nil || result1(k8syaml.YAMLToJSON(y)) != nil) ==> err != nil
+//@   modifies *
+//@   at-call Unmarshal requires from_yaml: g.format == FormatJSON && count("Marshal") == old(count("Marshal")) + 1 && lastErrNil("Marshal") && arg0 == lastRetAs("Marshal", []byte)
+//@   at-call Marshal requires source: (count("Unmarshal") == old(count("Unmarshal")) ==> count("Marshal") == old(count("Marshal")) && isType(arg0, *v3.Document) && asType(arg0, *v3.Document) == g.doc) && (count("Unmarshal") > old(count("Unmarshal")) ==> lastErrNil("Unmarshal") && arg0 == deref(asType(lastArgIface("Unmarshal", "1"), *any)))
+//@   ensures yaml: g.format != FormatJSON ==> count("Marshal") == old(count("Marshal")) + 1 && count("Unmarshal") == old(count("Unmarshal")) && r == lastRetAs("Marshal", []byte)
+//@   ensures json: g.format == FormatJSON && err == nil ==> count("Marshal") == old(count("Marshal")) + 2 && count("Unmarshal") == old(count("Unmarshal")) + 1 && r == lastRetAs("Marshal", []byte)
+
+// component schemas are keyed by the short message name
+//@ func (g *Generator) getSchemaName(message *protogen.Message) (r string)
+//@   pure
+//@   ensures r == string(message.Desc.Name())
+
+// every request and response type of the service is collected (with everything collectMessageRecursive reaches from it)
+//@ func (g *Generator) CollectReferencedMessages(service *protogen.Service)
+//@   requires service != nil
+//@   modifies *
+//@   at-call collectMessageRecursive requires io: arg0 == service.Methods[_i1].Input || arg0 == service.Methods[_i1].Output
+//@   loop 1 invariant count("collectMessageRecursive") == old(count("collectMessageRecursive")) + 2*_i1
+//@   ensures all: count("collectMessageRecursive") == old(count("collectMessageRecursive")) + 2*len(service.Methods)
